@@ -18,7 +18,17 @@ struct Req {
     fail_apply_at: Option<u32>,
 }
 
+#[derive(Clone)]
+struct Rec {
+    thread: usize,
+    start: u64,
+    keys: Vec<u64>,
+    first: Option<u64>,
+    res: Option<String>,
+}
+
 struct MockEnv {
+    log: Mutex<Vec<Rec>>,
     sched: Arc<Sched>,
     reqs: Mutex<Vec<Req>>,
     mem: Mutex<Vec<u64>>,
@@ -39,6 +49,9 @@ impl Env for MockEnv {
     fn write(&self, first: u64, count: u32, _sync: bool) -> Result<(), String> {
         let i = WORKER.with(|w| w.get()).expect("worker");
         self.batches.lock().unwrap().push((first, count, false));
+        if let Some(r) = self.log.lock().unwrap().iter_mut().rev().find(|r| r.thread == i) {
+            r.first = Some(first);
+        }
         if self.reqs.lock().unwrap()[i].fail_wal {
             self.mark_failed(first);
             return Err("injected wal failure".into());
@@ -158,6 +171,7 @@ fn new_case(n: usize) -> Case {
     let sched = Sched::new(n);
     *CURRENT.lock().unwrap() = Some(Arc::clone(&sched));
     let env = Arc::new(MockEnv {
+        log: Mutex::new(vec![]),
         sched: Arc::clone(&sched),
         reqs: Mutex::new(vec![Req::default(); n]),
         mem: Mutex::new(vec![]),
@@ -180,10 +194,15 @@ fn new_case(n: usize) -> Case {
                 env.reqs.lock().unwrap()[i] = req.clone();
                 let start = pipe.visible();
                 starts.lock().unwrap()[i] = start;
+                env.log.lock().unwrap().push(Rec { thread: i, start, keys: req.keys.clone(), first: None, res: None });
                 sched.gate("begun");
                 let keys: Vec<Vec<u8>> = req.keys.iter().map(|k| format!("key-{k}").into_bytes()).collect();
                 let res = std::panic::catch_unwind(std::panic::AssertUnwindSafe(|| rt.block_on(pipe.commit(&keys, start))));
-                sched.finished(res.unwrap_or_else(|_| "PANIC".to_string()));
+                let res = res.unwrap_or_else(|_| "PANIC".to_string());
+                if let Some(r) = env.log.lock().unwrap().iter_mut().rev().find(|r| r.thread == i) {
+                    r.res = Some(res.clone());
+                }
+                sched.finished(res);
             }
         });
     }
@@ -314,11 +333,19 @@ pub fn exec(a: &Args) -> i32 {
                 let g = c.sched.m.lock().unwrap();
                 let rs: Vec<String> = (0..n).map(|i| format!("{i}:{}", g.results[i].join(","))).collect();
                 drop(g);
+                // commit log: start/keys/first/result of every call, in begin order
+                let log: Vec<String> = c.env.log.lock().unwrap().iter().map(|r| {
+                    format!("{}/{}/{}/{}", r.start,
+                        r.keys.iter().map(|k| k.to_string()).collect::<Vec<_>>().join("."),
+                        r.first.map(|f| f.to_string()).unwrap_or("-".into()),
+                        r.res.clone().unwrap_or("-".into()))
+                }).collect();
+                let logs = if log.is_empty() { "-".to_string() } else { log.join(";") };
                 if hang {
                     c.hung = true;
-                    format!("HANG vis={} res={}", c.pipe.visible(), rs.join(";"))
+                    format!("HANG vis={} res={} log={}", c.pipe.visible(), rs.join(";"), logs)
                 } else {
-                    format!("vis={} res={}", c.pipe.visible(), rs.join(";"))
+                    format!("vis={} res={} log={}", c.pipe.visible(), rs.join(";"), logs)
                 }
             }
             _ => "bad-op".into(),
